@@ -351,7 +351,12 @@ impl Ctx {
             self.violate("event-from-stale-child", &[("gone", gone.to_string())], format!("an event was forwarded from child {id}, which is not the current child"));
         }
         if !self.children[id].pinged && !self.children[id].timer {
-            self.violate("child-event-without-cause", &[], format!("child {id} fired without a ping"));
+            // the child is a plain PingSource: this is also C03's "no callback without a ping"
+            self.violate("child-event-without-cause", &[], format!("child {id} (a ping source) fired without a ping"));
+            if let Some(v) = self.violations.last_mut() {
+                v.props.push("C03".into());
+                v.props.push("C01".into());
+            }
         }
         self.children[id].pinged = false;
         self.sh.child_fired.set(true);
